@@ -228,7 +228,18 @@ class Check:
             txt = strip_comments(open(os.path.join(COQ, rel)).read())
             for m in FORBIDDEN.finditer(txt):
                 bad.append(f"coq/{rel}: {m.group(0)}")
-        self.oblige(f"hygiene: no Admitted/admit/Axiom/Parameter/Conjecture/guard switches in the {len(rel_files)} "
+            # a Variable / Hypothesis / Context outside every Section declares an axiom
+            stack = []
+            for ln, line in enumerate(txt.split("\n"), 1):
+                m = re.match(r"\s*Section\s+(\w+)", line)
+                if m:
+                    stack.append(m.group(1))
+                m = re.match(r"\s*End\s+(\w+)", line)
+                if m and stack and stack[-1] == m.group(1):
+                    stack.pop()
+                if re.match(r"\s*(Variable|Variables|Hypothesis|Hypotheses|Context)\b", line) and not stack:
+                    bad.append(f"coq/{rel}:{ln}: {line.strip()[:40]} outside a section")
+        self.oblige(f"hygiene: no Admitted/admit/Axiom/Parameter/Conjecture/guard switches, no Variable/Hypothesis outside a section in the {len(rel_files)} "
                     "Coq files this property depends on", "hygiene", not bad, "; ".join(bad))
         self.notes.append("coq files in scope: " + " ".join(rel_files))
         return not bad
